@@ -160,6 +160,15 @@ def check_case(case):
                     tag = 'union-from-adjacency' if e2.count(',') > e1.count(',') else 'changed[%s]' % diff
                     fails.append(('roundtrip|differs|%s' % tag, '%r -> expr %r re-parses to %r' % (s, expr, back[1])))
             labels.append('roundtrip')
+        # digit provenance: a decimal digit of another script is no digit of the formula language; when the parser accepts a text
+        # that holds one outside string literals, the character must still be there in the expression it printed
+        import unicodedata
+        S0_, ok0 = SX.strip_strings(s)
+        if ok0 and '!' not in S0_:  # (a sheet qualifier is not always printed in the expression)
+            for ch in set(S0_):
+                if ord(ch) > 127 and unicodedata.category(ch) == 'Nd' and ch not in expr and ch.upper() not in expr:
+                    fails.append(('misread|unicode-digit', '%r accepted as %s: %r (U+%04X) was read as a digit' % (s, expr, ch, ord(ch))))
+                    break
         # operator provenance (skipped when a quoted sheet name or bracket may hide characters)
         if form is not None and plain and "'" not in expr:
             S_, ok1 = SX.strip_strings(body)
